@@ -262,7 +262,7 @@ impl OState {
             Op::Supersede(i, j, _) => { if *j < self.rows.len() && i != j && let Some(r) = self.rows.get_mut(*i) { r.status = 's' } None }
             Op::Project(t) => Some(vec![self.expect(*t)]),
             Op::SlotProject => Some(self.slot.clone().iter().map(|p| { let mut e = self.expect(*p); e.prop = Some(*p); e }).collect()),
-            Op::Route(_) | Op::Bad(_) => None,
+            Op::Route(_) | Op::Spell(_) | Op::Norm(_) | Op::Bad(_) => None,
         }
     }
 }
